@@ -87,7 +87,7 @@ CHECKS['C20'] = {
     'assumptions': [],
     'targets': [
         {'name': 'c20_pulsenode', 'src': ['harness/C20_pulsenode.cpp'], 'quick_n': 10000000, 'thorough_n': 80000000, 'maxlen': 400, 'min_nontrivial': 1000000,
-         'class_floors': {'case_with_callback_mutation': 200000, 'case_pulse_fired_nodes_at_two_depths': 100000, 'case_with_deferred_due_node': 20000}},
+         'class_floors': {'case_with_callback_mutation': 200000, 'case_pulse_fired_nodes_at_two_depths': 100000, 'case_with_deferred_due_node': 20000, 'case_node_invalidated_between_wait_and_pulse': 200000, 'case_callback_destroyed_a_node_off_the_call_stack': 50000}},
     ],
 }
 
@@ -104,7 +104,7 @@ CHECKS['C01'] = {
     'assumptions': ['zero-length raw items are built only through AddFlat(ByteBuffer) (AddData documents that 0 bytes are rejected)'],
     'targets': [
         {'name': 'c01_roundtrip', 'src': ['harness/C01_roundtrip.cpp'], 'quick_n': 1000000, 'thorough_n': 8000000, 'maxlen': 600, 'min_nontrivial': 100000,
-         'class_floors': {'case_field_crossed_inline_array_boundary': 50000, 'case_nesting_ge_2': 5000, 'case_with_pointer_or_tag_field': 3000, 'case_equality_asserted': 50000, 'case_with_nan': 20000}},
+         'class_floors': {'case_field_crossed_inline_array_boundary': 50000, 'case_nesting_ge_2': 5000, 'case_with_pointer_or_tag_field': 3000, 'case_equality_asserted': 50000, 'case_with_nan': 20000, 'case_with_a_field_emptied_through_a_sharing_message': 5000}},
     ],
 }
 
@@ -120,7 +120,7 @@ CHECKS['C02'] = {
         {'name': 'c02_parsers', 'src': ['harness/C02_parsers.cpp'], 'ccodecs': True, 'meter': True, 'quick_n': 1200000, 'thorough_n': 9600000, 'maxlen': 500, 'min_nontrivial': 50000, 'timeout_is_violation': True, 'budget': 8,
          'class_floors': {'entry_cpp': 50000, 'entry_mini': 50000, 'entry_micro': 50000, 'entry_templated': 30000, 'reached_field_parsing': 100000, 'cpp_accepted': 5000, 'cpp_rejected': 20000}},
         {'name': 'c02_gateways', 'src': ['harness/C02_gateways.cpp'], 'ccodecs': True, 'quick_n': 1500000, 'thorough_n': 12000000, 'maxlen': 700, 'min_nontrivial': 30000, 'timeout_is_violation': True, 'budget': 20,
-         'class_floors': {'binary_unlimited': 3000, 'binary_limit_1MiB': 3000, 'templating': 3000, 'text': 3000, 'slip': 3000, 'websocket_server': 3000, 'websocket_client': 3000, 'packet_tunnel': 3000, 'mini_packet_tunnel': 3000, 'mini_c_gateway': 3000, 'micro_c_gateway': 3000, 'reuse_after_reset_checked': 30000, 'case_stream_of_2048_bytes_or_more': 20000}},
+         'class_floors': {'binary_unlimited': 3000, 'binary_limit_1MiB': 3000, 'templating': 3000, 'text': 3000, 'slip': 3000, 'websocket_server': 3000, 'websocket_client': 3000, 'packet_tunnel': 3000, 'mini_packet_tunnel': 3000, 'mini_c_gateway': 3000, 'micro_c_gateway': 3000, 'reuse_after_reset_checked': 30000, 'case_stream_of_2048_bytes_or_more': 20000, 'binary_packet_mode': 20000, 'case_valid_datagram_after_a_malformed_one': 5000}},
     ],
 }
 
@@ -137,7 +137,7 @@ CHECKS['C03'] = {
     'assumptions': ['text lines exclude NUL, CR and LF bytes (the text gateway cannot carry them inside a line)'],
     'targets': [
         {'name': 'c03_gateways', 'src': ['harness/C03_gateways.cpp'], 'ccodecs': True, 'quick_n': 600000, 'thorough_n': 4800000, 'maxlen': 1500, 'min_nontrivial': 30000, 'budget': 60,
-         'class_floors': {'binary_zlib': 10000, 'templating': 5000, 'text': 3000, 'slip': 1500, 'raw': 1500, 'raw_min_chunk': 1500, 'websocket': 5000, 'mini_gateway': 1500, 'micro_gateway': 1500, 'binary_encoding_switches': 3000, 'binary_zlib_independent_streams': 1500, 'binary_300KiB': 1500}},
+         'class_floors': {'binary_zlib': 10000, 'templating': 5000, 'text': 3000, 'slip': 1500, 'raw': 1500, 'raw_min_chunk': 1500, 'websocket': 5000, 'mini_gateway': 1500, 'micro_gateway': 1500, 'binary_encoding_switches': 3000, 'binary_zlib_independent_streams': 1500, 'binary_300KiB': 1500, 'message_sized_to_the_scratch_buffer_boundary': 5000}},
     ],
 }
 
@@ -240,7 +240,7 @@ CHECKS['C14'] = {
     'assumptions': [],
     'targets': [
         {'name': 'c14_queryfilter', 'src': ['harness/C14_queryfilter.cpp'], 'quick_n': 2000000, 'thorough_n': 16000000, 'maxlen': 400, 'min_nontrivial': 300000, 'timeout_is_violation': True,
-         'class_floors': {'mode_semantics': 100000, 'mode_hostile_archive': 10000, 'mode_arbitrary_expression': 10000, 'expressions_parsed': 5000, 'evaluations_decided_by_a_present_value': 100000, 'hostile_archive_accepted': 1000, 'arbitrary_expression_accepted': 300}},
+         'class_floors': {'mode_semantics': 100000, 'mode_hostile_archive': 10000, 'mode_arbitrary_expression': 10000, 'expressions_parsed': 5000, 'evaluations_decided_by_a_present_value': 100000, 'hostile_archive_accepted': 1000, 'arbitrary_expression_accepted': 300, 'expressions_with_uncast_literals': 1000}},
     ],
 }
 
@@ -256,7 +256,7 @@ CHECKS['C15'] = {
     'assumptions': ['subjects for range patterns are canonical decimal integers or purely alphabetic strings'],
     'targets': [
         {'name': 'c15_patterns', 'src': ['harness/C15_patterns.cpp'], 'quick_n': 3000000, 'thorough_n': 24000000, 'maxlen': 300, 'min_nontrivial': 300000, 'timeout_is_violation': False,
-         'class_floors': {'mode_ast_patterns': 500000, 'mode_escape_law': 200000, 'mode_numeric_ranges': 200000, 'mode_raw_pattern_uniqueness': 150000, 'case_negated': 100000, 'case_comma_list': 200000}},
+         'class_floors': {'mode_ast_patterns': 500000, 'mode_escape_law': 200000, 'mode_numeric_ranges': 200000, 'mode_raw_pattern_uniqueness': 100000, 'mode_segmented_matcher': 80000, 'case_negated': 100000, 'case_comma_list': 200000}},
     ],
 }
 
@@ -272,7 +272,7 @@ CHECKS['C12'] = {
     'evidence_extra': lambda pt: {'exhaustive_fault_plans_enumerated': pt['c12_tunnel']['classes'].get('exhaustive_fault_plans', 0), 'exhaustive_note': 'each exhaustive plan set enumerates all 4^n {deliver,drop,duplicate,swap-with-next} plans of one generated packet sequence (n <= 6); the space of sequences itself is sampled, so exhaustive=false overall'},
     'targets': [
         {'name': 'c12_tunnel', 'src': ['harness/C12_tunnel.cpp'], 'quick_n': 300000, 'thorough_n': 2400000, 'maxlen': 400, 'min_nontrivial': 50000, 'budget': 60,
-         'class_floors': {'mini_tunnel': 20000, 'packet_tunnel': 20000, 'exhaustive_plan_sets': 3000, 'message_id_wraparound': 3000, 'several_senders': 20000, 'with_slave_gateway': 20000, 'mode_fault_free_with_would_block_writes': 10000, 'receiver_on_library_ByteBufferPacketDataIO': 50000, 'mode_packetized_stream_transport': 5000}},
+         'class_floors': {'mini_tunnel': 20000, 'packet_tunnel': 20000, 'exhaustive_plan_sets': 3000, 'message_id_wraparound': 3000, 'several_senders': 20000, 'with_slave_gateway': 20000, 'mode_fault_free_with_would_block_writes': 10000, 'receiver_on_library_ByteBufferPacketDataIO': 50000, 'mode_packetized_stream_transport': 5000, 'with_raw_data_slave_gateway_several_buffers_per_message': 5000}},
     ],
 }
 
@@ -333,7 +333,7 @@ CHECKS['C10'] = {
     'assumptions': [],
     'targets': [
         {'name': 'c10_refcount', 'src': ['harness/C10_refcount.cpp'], 'quick_n': 600000, 'thorough_n': 4800000, 'maxlen': 300, 'min_nontrivial': 50000, 'budget': 120,
-         'class_floors': {'case_single_threaded_history': 50000, 'case_multi_threaded': 200000, 'case_final_release_by_another_thread': 50000, 'case_non_counting_reference_switched_to_counting': 10000, 'case_pool_drained_in_mid_history': 50000}},
+         'class_floors': {'case_single_threaded_history': 50000, 'case_multi_threaded': 200000, 'case_final_release_by_another_thread': 50000, 'case_non_counting_reference_switched_to_counting': 10000, 'case_pool_drained_in_mid_history': 50000, 'case_reference_neutralized': 10000}},
         {'name': 'c10_tsan', 'src': ['harness/C10_tsan.cpp'], 'variant': 'tsan', 'fuzz': False, 'coverage': False, 'quick_n': 24000, 'thorough_n': 192000, 'maxlen': 16, 'min_nontrivial': 5000, 'budget': 300, 'repro_min': 1,
          'class_floors': {'thread_echo_runs': 1000}},
     ],
@@ -380,7 +380,7 @@ CHECKS['C05'] = {
     'assumptions': ['path clauses are non-empty and patterns do not end in a lone backslash (PutPathString and GetPathDepth count empty clauses differently; exercised only under C07)'],
     'targets': [
         {'name': 'c05_routing', 'src': ['harness/C05_routing.cpp'], 'quick_n': 300000, 'thorough_n': 2400000, 'maxlen': 300, 'min_nontrivial': 5000, 'budget': 120,
-         'class_floors': {'mode_routing': 100000, 'mode_traversal': 100000, 'case_two_keys_of_equal_depth': 50000, 'case_keys_of_different_depths': 20000, 'case_with_filters': 10000, 'case_key_mixing_literal_and_wildcard_levels': 20000, 'case_keyless_message_after_default_route_was_replaced': 500, 'case_malformed_key_before_a_valid_one': 500}},
+         'class_floors': {'mode_routing': 100000, 'mode_traversal': 100000, 'case_two_keys_of_equal_depth': 50000, 'case_keys_of_different_depths': 20000, 'case_with_filters': 10000, 'case_key_mixing_literal_and_wildcard_levels': 20000, 'case_keyless_message_after_default_route_was_replaced': 500, 'case_malformed_key_before_a_valid_one': 500, 'case_with_child_count_filter': 1000}},
     ],
 }
 
